@@ -23,3 +23,25 @@ Theorem C16_label_sound : forall lab p, label_pageid lab = Some p ->
     pageid_encode p = lab /\ (length p <= 42)%nat /\ Forall (fun i => (i < 64)%N) p.
 Proof. exact Image.label_pageid_sound. Qed.
 Print Assumptions C16_label_sound.
+
+(* ------------------------------------------------------------------------------------------ *)
+(* the WAL blob format (Wal.v mirrors bitbox/wal.rs: WalBlobBuilder / WalBlobReader)            *)
+From Nomt Require Import Result Wal Wal_proofs.
+
+(* what the builder writes, the reader reads back: for every sync number below 2^32 and every
+   list of well-formed entries *)
+Theorem C16_wal_decode_encode : forall s es, (s < 2 ^ 32)%N -> wf_entries es ->
+  Wal.decode (Wal.encode s es) = Ok (s, es).
+Proof. exact Wal_proofs.decode_encode. Qed.
+Print Assumptions C16_wal_decode_encode.
+
+(* ANY byte string gets a verdict from the reader, and what it accepts has entries of the right
+   shape (so recover's "mismatched number of changed nodes" cannot be reached) *)
+Theorem C16_wal_decode_total : forall bytes, Wal.decode bytes <> Panic.
+Proof. exact Wal_proofs.decode_total. Qed.
+Print Assumptions C16_wal_decode_total.
+
+Theorem C16_wal_decode_shape : forall bytes s es,
+  Wal.decode bytes = Ok (s, es) -> List.Forall shape_entry es.
+Proof. exact Wal_proofs.decode_shape. Qed.
+Print Assumptions C16_wal_decode_shape.
